@@ -165,6 +165,9 @@ pub fn extremes(rng: &mut Rng, scale: usize) -> Vec<(&'static str, String)> {
         ("long-comment", format!("#{}", "c".repeat(n))),
         ("word-list", format!(".word {}", "1, ".repeat(n / 3))),
         ("unterminated-macro", format!(".macro m\n{}", "nop\n".repeat(n / 4))),
+        ("many-unterminated-macros", ".macro m\n".repeat(n / 9)),
+        ("many-closed-macros", ".macro m (%a)\n    mv t0, %a\n.endmacro\n".repeat(n / 36)),
+        ("macro-closed-far-away", format!(".macro m\n{}.endmacro\nmain:\n    li a7, 10\n    ecall\n", "    nop\n".repeat(n / 8))),
         ("sp-overflow-chain", format!("main:\n{}    li a7, 10\n    ecall\n", "    addi sp, sp, -2147483648\n".repeat(3 + rng.below(3)))),
         ("constant-chain", format!("main:\n    li t0, 2147483647\n{}    li a7, 10\n    ecall\n", "    add t0, t0, t0\n    mul t0, t0, t0\n    slli t0, t0, 31\n".repeat(n / 60 + 1))),
         ("long-straight-line", format!("main:\n{}    li a7, 10\n    ecall\n", "    addi t0, t0, 1\n".repeat(n / 18))),
